@@ -172,7 +172,9 @@ class RangeNode(OperandNode):
             context.ranges[addr].value = data = func_xltypes.Array(range_cells)
             return data
 
-        value = context.eval_cell(addr)
+        # Cells are keyed by their plain address; `$` only matters when a
+        # formula is copied.
+        value = context.eval_cell(addr.replace('$', ''))
         context.set_sheet()
         return value
 
